@@ -113,6 +113,19 @@ def drive(task):
         for i in range(task["count"]):
             r = U.random_regexp(rng, rng.choice([2, 3, 4, 5, 6]), rng.choice(["ab", "abc", "a"]))
             yield from build_events({"kind": "re", "re": ab.regexp(r)})
+            if i % 4 == 3:
+                # history: two trees over {0, 1, '0', '1'} that print alike (constants and symbols swapped)
+                a = ab.regexp(U.random_regexp(rng, rng.choice([1, 2, 3]), ["0", "1"], p_zero=0.25, p_one=0.25))
+                swap = {"zero": ["sym", "0"], "one": ["sym", "1"]}
+
+                def sw(t):
+                    if t[0] in swap:
+                        return swap[t[0]]
+                    if t[0] == "sym":
+                        return ["zero"] if t[1] == "0" else ["one"]
+                    return [t[0]] + [sw(x) for x in t[1:]]
+                yield from build_events({"kind": "re", "re": a})
+                yield from build_events({"kind": "re", "re": sw(a)})
     elif k == "cfg":
         for i, rules in enumerate(cfgsrc.small_grammars(3)):
             if i % task["parts"] == task["part"] and (i // task["parts"]) % task["stride"] == 0:
@@ -122,10 +135,21 @@ def drive(task):
                 yield from build_events({"kind": "cfg_rules", "rules": [list(r) for r in rules]})
     elif k == "rnd_cfg":
         for i in range(task["count"]):
-            yield from build_events(cfgsrc.random_src(rng, cnf=rng.random() < 0.4))
+            src = cfgsrc.random_src(rng, cnf=rng.random() < 0.4)
+            if i % 4 == 3:
+                src["vnames"] = rng.randrange(len(U.VAR_NAME_POOLS))      # multi-character variable names
+            yield from build_events(src)
+            if i % 3 == 2:
+                # history: the same rule list with ANOTHER start variable, in the same process
+                lhs = sorted({r[0] for r in src["rules"]} - {src["rules"][0][0]})
+                if lhs:
+                    yield from build_events(dict(src, start=lhs[0]))
     elif k == "dense_cfg":
         for i in range(task["count"]):
-            yield from build_events(cfgsrc.dense_src(rng), ns=[4])
+            src = cfgsrc.dense_src(rng)
+            if i % 2:
+                src["vnames"] = rng.randrange(len(U.VAR_NAME_POOLS))
+            yield from build_events(src, ns=[4])
     elif k == "pda":
         for i, src in enumerate(pdasrc.small_pdas(3)):
             if i % task["parts"] == task["part"] and (i // task["parts"]) % task["stride"] == 0:
